@@ -138,6 +138,13 @@ class C15(scen.WorldProp):
                 nm = rng.choice(["Bob", "Wheatley", "a b"])
                 sc["on_join"] = scen.humans_on_join(humans, nm, [b for b in range(1, N + 1) if b not in humans], namesake=twice)
                 sc["bot"] = scen.bot_cfg(spec, user_name=nm)
+            elif not server and human_leads and rng.random() < 0.25:
+                # the tower was bigger when Wheatley joined and the leader also held one of the bells that are then
+                # taken away: they still hold the leading bell
+                extra = rng.choice([1, 2])
+                sc["tower_size"] = N + extra
+                sc["on_join"] = scen.humans_on_join(sorted(humans + [N + extra]))
+                sc["events"] = [[t0 - 0.2, "msg", {"m": "size_change", "size": N}]] + events
             if server:
                 js = {"type": "method", "stage": N, "notation": "x1", "bob": {"0": "14"}, "single": {"0": "1234"}}
                 sc["events"] = [[1000.05, "msg", {"m": "row_gen", "json": js}]] + events
